@@ -39,6 +39,23 @@ is "Dynamic": values()/repr/serialization read it through another branch of get_
 operations, clauses and probes are the same with values of the type (Boolean: the value is toggled); the
 governs probe uses ``p.constant = True`` -> ``o.x = v`` raises TypeError instead of bounds.  ``Pq`` (a new
 name, type independent) is left out of these alphabets.
+
+Diamond dimension (``shape=diamond``): A ; B(A) ; C(A) ; D(B, C) -- the EARLIER base B merely inherits ``x``,
+the LATER base C gets its own Parameter (declared: ``redecl=C``; or by the operations ``S2`` = ``C.x = v`` /
+``Px2`` = add_parameter on C).  By Python's MRO (D, B, C, A) the Parameter governing ``D.x`` is C's; the
+clauses (identity vs inspect.getattr_static, default, values, ...) are evaluated for D and its instances like
+for every other class.  For instances the identity clause reads: a Parameter that ``o.param.objects('existing')``
+shows and that is not an instance-level copy (owner is not ``o``) is the very object governing attribute access
+on ``type(o)``.
+
+Fault dimension (``fault=watcher``): the additional operation
+
+    SF<k>  ``K.param.watch(boom, ['x'])`` (a class-level watcher that raises; registering it reads -- and so
+           fills -- the cache of K) ; ``K.x = v`` -> the exception escapes AFTER the new default was stored ;
+           the watcher is removed again
+
+The statement makes no exception for assignments that fail half-way: whatever state the failed assignment
+leaves, every clause must hold in it (the oracle never looks at whether the value was stored).
 """
 import json
 import logging
@@ -48,6 +65,14 @@ import warnings
 import zlib
 
 from bounded._api import Bounded, REPLAY_HEADER
+
+
+def _header(**kw):
+    """replay header; PYVC_REPO (a scratch copy of the library under test) overrides /repo"""
+    return REPLAY_HEADER.format(**kw).replace(
+        "sys.path.insert(0, '/repo')",
+        "import os\nsys.path.insert(0, os.environ.get('PYVC_REPO', '/repo'))      # (PYVC_REPO: a scratch copy of the library under test)")
+
 
 _param = None
 
@@ -68,7 +93,16 @@ SHAPES = {
     'chain2': (('A', None), ('B', 'A')),
     'chain3': (('A', None), ('B', 'A'), ('C', 'B')),
     'fork': (('A', None), ('B', 'A'), ('C', 'A')),
+    'diamond': (('A', None), ('B', 'A'), ('C', 'A'), ('D', 'B, C')),
 }
+SHAPE_ORDER = ('single', 'chain2', 'chain3', 'fork', 'diamond')
+CLS = 'ABCD'
+
+
+def redecl_class(cfg):
+    """name of the class that redeclares x (cfg['redecl']: False | True = B | 'C')"""
+    r = cfg['redecl']
+    return None if not r else ('B' if r is True else r)
 HOWS = ('getitem', 'iter', 'contains')
 NAMES = ('name', 'x', 'y', 'q')
 
@@ -92,12 +126,31 @@ def configs():
         for shape in ('single', 'chain2', 'fork'):
             for redecl in ((False,) if shape == 'single' else (False, True)):
                 out.append({'shape': shape, 'redecl': redecl, 'xtype': xtype})
+    # diamonds: the later base C has its own x (declared, or obtained by S2 / Px2), the earlier base B inherits
+    for xtype in (None, 'String', 'List'):
+        for redecl in (False, 'C', True):
+            if xtype and redecl is True:
+                continue
+            c = {'shape': 'diamond', 'redecl': redecl}
+            if xtype:
+                c['xtype'] = xtype
+            out.append(c)
+    # fault dimension: class-level assignment that raises after the default was stored
+    for xtype in (None, 'String'):
+        for shape in ('chain2', 'chain3', 'fork', 'diamond'):
+            if xtype and shape not in ('chain2', 'diamond'):
+                continue
+            c = {'shape': shape, 'redecl': False, 'fault': 'watcher'}
+            if xtype:
+                c['xtype'] = xtype
+            out.append(c)
     return out
 
 
 def cfg_text(cfg):
-    return 'shape=%s redecl=%s%s' % (cfg['shape'], 'B' if cfg['redecl'] else 'none',
-                                     ' xtype=%s' % cfg['xtype'] if cfg.get('xtype') else '')
+    return 'shape=%s redecl=%s%s%s' % (cfg['shape'], redecl_class(cfg) or 'none',
+                                       ' xtype=%s' % cfg['xtype'] if cfg.get('xtype') else '',
+                                       ' fault=%s' % cfg['fault'] if cfg.get('fault') else '')
 
 
 def xval(cfg, n, current=None):
@@ -124,11 +177,32 @@ def class_source(cfg):
         if base is None:
             src += ('class A(param.Parameterized):\n    x = %s\n'
                     "    y = param.String('s')\n" % xdecl(cfg, xval(cfg, 1), ', bounds=(0, 1000)'))
-        elif cname == 'B' and cfg['redecl']:
-            src += 'class B(%s):\n    x = %s\n' % (base, xdecl(cfg, xval(cfg, 2)))
+        elif cname == redecl_class(cfg):
+            src += 'class %s(%s):\n    x = %s\n' % (cname, base, xdecl(cfg, xval(cfg, 2)))
         else:
             src += 'class %s(%s):\n    pass\n' % (cname, base)
+    if cfg.get('fault'):
+        src += FAULT_SRC
     return src
+
+
+FAULT_SRC = ('''class Boom(Exception):
+    pass
+def boom(*events):
+    raise Boom()
+def failing_class_set(K, v):
+    """K.x = v while a class-level watcher of x raises: the exception escapes after the default was stored"""
+    w = K.param.watch(boom, ['x'])
+    try:
+        K.x = v
+    except Boom:
+        pass
+    finally:
+        for k in K.__mro__:                  # remove the watcher again, wherever it is registered now
+            P = k.__dict__.get('x')
+            if isinstance(P, param.Parameter) and w in P.watchers.get('value', []):
+                P.watchers['value'].remove(w)
+''')
 
 
 def alphabet(cfg):
@@ -136,8 +210,11 @@ def alphabet(cfg):
     ops = []
     for k in range(n):
         ops += ['R%d' % k, 'S%d' % k, 'Pq%d' % k, 'Px%d' % k, 'N%d' % k]
-        if cfg.get('xtype'):
+        if cfg.get('xtype') or cfg.get('fault'):
             ops.remove('Pq%d' % k)
+        if cfg.get('fault'):
+            ops.remove('Px%d' % k)
+            ops.append('SF%d' % k)
     for j in range(MAXI):
         ops += ['I%d' % j, 'IR%d' % j]
     return ops
@@ -199,12 +276,14 @@ def histories(alpha, length, first=None):
 
 def op_source(op, step, cfg, how):
     kind, i = _split(op)
-    cn = 'ABC'[i] if kind in ('R', 'S', 'Pq', 'Px', 'N', 'WK') else None
+    cn = CLS[i] if kind in ('R', 'S', 'SF', 'Pq', 'Px', 'N', 'WK') else None
     if kind == 'R':
         return {'getitem': "%s.param['x']" % cn, 'iter': 'list(%s.param)' % cn,
                 'contains': "'x' in %s.param" % cn}[how]
     if kind == 'S':
         return '%s.x = %s' % (cn, xval(cfg, 10 + step, '%s.x' % cn))
+    if kind == 'SF':
+        return 'failing_class_set(%s, %s)' % (cn, xval(cfg, 50 + step, '%s.x' % cn))
     if kind == 'Pq':
         return "%s.param.add_parameter('q', param.Number(%d))" % (cn, 20 + step)
     if kind == 'Px':
@@ -250,11 +329,11 @@ PROBE_SRC = {
 
 def probe_source(op, step, cfg):
     kind, i = _split(op)
-    cur = '%s.x' % 'ABC'[i] if kind == 'WK' else 'insts[%d].x' % i
+    cur = '%s.x' % CLS[i] if kind == 'WK' else 'insts[%d].x' % i
     v = xval(cfg, {'WI': 700, 'GI': 600, 'WK': 800}[kind] + step, cur)
     if kind == 'GI' and cfg.get('xtype'):
         kind = 'GIc'
-    return PROBE_SRC[kind].format(i=i, c='ABC'[i], v=v)
+    return PROBE_SRC[kind].format(i=i, c=CLS[i % len(CLS)], v=v)
 
 
 CHECK_SRC = '''
@@ -303,6 +382,13 @@ def check_inst(o, label):
     if listed_c != reach or listed_i != reach:
         out.append(('listed', 'Parameters reachable as attributes of %s (a %s): %r; `in obj.param`: %r; list(obj.param): %r'
                     % (label, K.__name__, reach, listed_c, listed_i)))
+    shown = o.param.objects('existing')
+    for n in reach:
+        p = shown.get(n)
+        if p is not None and p.owner is not o and p is not inspect.getattr_static(K, n):
+            out.append(('identity', '%s.param.objects("existing")[%r] is a class-level Parameter but not inspect.getattr_static(%s, %r) '
+                        '(owners: %s vs %s)' % (label, n, K.__name__, n, getattr(p.owner, '__name__', p.owner),
+                                                inspect.getattr_static(K, n).owner.__name__)))
     want = {n: getattr(o, n) for n in reach}
     got = o.param.values()
     if got != want:
@@ -351,7 +437,7 @@ def run_history(cfg, how, ops, hits=None):
         except Exception as e:
             return [('C13/operation-raised', op, '%s raised %r' % (op, e), tuple(ops[:step + 1]))]
         if kind == 'N':
-            icls.append('ABC'[i])
+            icls.append(CLS[i])
         base.append(op)
     explicit = list(ops[len(base):])
     out = []
@@ -387,7 +473,7 @@ def run_history(cfg, how, ops, hits=None):
             hits['probe'] = hits.get('probe', 0) + 1
         if not ok:
             cl = {'WI': 'C13/instance/watch-fires', 'GI': 'C13/instance/governs', 'WK': 'C13/class/watch-fires'}[kind]
-            at = ('insts[%d]:%s' % (i, icls[i])) if kind != 'WK' else 'ABC'[i]
+            at = ('insts[%d]:%s' % (i, icls[i])) if kind != 'WK' else CLS[i]
             out.append((cl, at, det, tuple(done)))
     return out
 
@@ -445,11 +531,11 @@ def shrink(cfg, how, ops, clause):
         if changed:
             continue
         # smaller / simpler configuration
-        used = max([_split(o)[1] for o in ops if _split(o)[0] in ('R', 'S', 'Pq', 'Px', 'N', 'WK')] + [0])
-        for shape in ('single', 'chain2', 'chain3', 'fork'):
+        used = max([_split(o)[1] for o in ops if _split(o)[0] in ('R', 'S', 'SF', 'Pq', 'Px', 'N', 'WK')] + [0])
+        for shape in SHAPE_ORDER:
             if len(SHAPES[shape]) <= used or len(SHAPES[shape]) >= len(SHAPES[cfg['shape']]):
                 continue
-            c2 = dict(cfg, shape=shape, redecl=cfg['redecl'] and shape != 'single')
+            c2 = dict(cfg, shape=shape, redecl=cfg['redecl'] if redecl_class(cfg) in [c for c, _ in SHAPES[shape][1:]] else False)
             if ok(c2, how, ops):
                 cfg = c2
                 changed = True
@@ -485,7 +571,7 @@ def _subseq(small, big):
 
 
 def replay_script(cfg, how, ops, clause, at, witness):
-    head = REPLAY_HEADER.format(prop='C13', name='replay_c13.py', clause=clause, witness=witness)
+    head = _header(prop='C13', name='replay_c13.py', clause=clause, witness=witness)
     lines = [head, 'import warnings, logging', 'import param', "warnings.simplefilter('ignore')",
              "logging.getLogger('param').setLevel(logging.CRITICAL)", class_source(cfg) + CHECK_SRC, 'insts = []']
     kind_last = _split(ops[-1])[0]
@@ -499,7 +585,7 @@ def replay_script(cfg, how, ops, clause, at, witness):
     if kind_last in ('WI', 'GI', 'WK'):
         lines += ['if not probe_ok:', "    print('REPRODUCED: ' + probe_detail); sys.exit(1)", "print('NOT-REPRODUCED')"]
     else:
-        if at[0] in 'ABC' and len(at) == 1:
+        if at[0] in CLS and len(at) == 1:
             lines.append('res = check_class(%s)' % at)
         else:
             lines.append('res = check_inst(%s, %r)' % (at.split(':')[0], at.split(':')[0]))
@@ -512,6 +598,13 @@ def replay_script(cfg, how, ops, clause, at, witness):
 def plan(tier, cfg):
     """-> (max length enumerated exhaustively (all lengths 1..L), [(length, sample size)], hows)"""
     n = len(SHAPES[cfg['shape']])
+    if cfg['shape'] == 'diamond' or cfg.get('fault'):
+        small = bool(cfg.get('xtype'))
+        if tier == 'thorough':
+            return (3, [(4, 3000)]) if small else ((4, [(5, 6000)]) if n < 4 else (3, [(4, 8000), (5, 6000)]))
+        if tier == 'smoke':
+            return (2, [(3, 100)])
+        return (1, [(2, 150), (3, 80)]) if small else (2, [(3, 200), (4, 100)])
     if cfg.get('xtype'):
         if tier == 'thorough':
             return {1: (5, []), 2: (4, [(5, 3000)]), 3: (3, [(4, 3000), (5, 2000)])}[n]
@@ -615,7 +708,11 @@ def _run(tier, seed):
         'C13',
         rule='one case = (hierarchy of <= 3 fresh classes: single / chain2 / chain3 / fork, B optionally '
              'redeclaring x; type of x: Number (Dynamic family; all shapes) or a non-Dynamic type String / Boolean / '
-             'List / Selector (single, chain2, fork; no Pq); namespace-read style) x one history over {R<k> read namespace of class k, S<k> '
+             'List / Selector (single, chain2, fork; no Pq); diamonds A, B(A), C(A), D(B, C) with x declared on A '
+             'and optionally redeclared on the LATER base C (or on B), x a Number / String / List; fault configurations '
+             '(chain2, chain3, fork, diamond; x a Number / String) with the extra operation SF<k> = class-level set '
+             'on class k that raises after the default was stored (raising class-level watcher); '
+             'namespace-read style) x one history over {R<k> read namespace of class k, S<k> '
              'class-level set, Pq<k>/Px<k> add_parameter of a new / an existing name on class k, N<k> create '
              'instance, I<j> instance set, IR<j> read instance namespace}; every clause is evaluated after the '
              'LAST step only, for every class and instance (listed, identity vs inspect.getattr_static, default, '
@@ -646,7 +743,8 @@ def _run(tier, seed):
         for s in samples:
             B.sample(s)
     B.evaluations = total
-    fails.sort(key=lambda f: (len(f[3]), f[0], XTYPE_ORDER.index(f[1].get('xtype')), len(SHAPES[f[1]['shape']]), f[1]['redecl'],
+    fails.sort(key=lambda f: (len(f[3]), f[0], bool(f[1].get('fault')), XTYPE_ORDER.index(f[1].get('xtype')), len(SHAPES[f[1]['shape']]),
+                              str(redecl_class(f[1])),
                               HOWS.index(f[2]), f[3]))
     seen = {}
     budget = {}
@@ -680,7 +778,7 @@ def _run(tier, seed):
             seen[wk]['_ops'].append(o2)
             continue
         w = witness_text(c2, h2, o2, at)
-        det2 = re.sub(r"'([ABC])\d{5}'", r"'\1<nnnnn>'", det2)       # auto-generated instance names
+        det2 = re.sub(r"'([ABCD])\d{5}'", r"'\1<nnnnn>'", det2)       # auto-generated instance names
         B.violation(clause, w, det2, replay_script(c2, h2, o2, clause, at, w))
         seen[wk] = B.violations[-1]
         seen[wk]['_ops'] = [o2]
